@@ -9,9 +9,18 @@ use text2num::LangInterpreter;
 
 pub const T: [f64; 10] = [f64::NEG_INFINITY, -1.0, 0.0, 1.0, 5.0, 9.0, 10.0, 1000.0, f64::INFINITY, f64::NAN];
 
+/// Is the number an ordinal? Judged on what is reported to the user — the digit text carries an ordinal
+/// marker — not on the flag (that the two agree is C06's business).
+fn ordinal(l: L, o: &Occ) -> bool {
+    match crate::model::numeral::read(l, &o.text) {
+        Some(n) => n.marker.is_some(),
+        None => o.is_ordinal,
+    }
+}
+
 /// "small" as the statement defines it: a single digit or an ordinal, value strictly below t.
-fn small(o: &Occ, t: f64) -> bool {
-    (o.text.chars().count() == 1 || o.is_ordinal) && o.value() < t
+fn small(l: L, o: &Occ, t: f64) -> bool {
+    (o.text.chars().count() == 1 || ordinal(l, o)) && o.value() < t
 }
 
 /// A token between two numbers keeps them adjacent iff it is whitespace, non-period punctuation,
@@ -43,17 +52,17 @@ pub fn policy(l: L, lang: &text2num::Language, toks: &[HTok], r: &[Occ], t: f64,
             if stream::is_ws(tx) || tx == "-" || (dangling == 2 && toks[j].lower == l.conj()) {
                 continue;
             }
-            return r.iter().any(|o| o.end == j + 1 && !o.is_ordinal && !o.text.contains(l.mark()) && !o.text.starts_with("1/"));
+            return r.iter().any(|o| o.end == j + 1 && !ordinal(l, o) && !o.text.contains(l.mark()) && !o.text.starts_with("1/"));
         }
         false
     };
     let linked = |a: &Occ, b: &Occ| -> bool {
-        a.is_ordinal == b.is_ordinal && (a.end..b.start).all(|i| transparent(l, lang, &toks[i].text) || is_dangling_sep(i))
+        ordinal(l, a) == ordinal(l, b) && (a.end..b.start).all(|i| transparent(l, lang, &toks[i].text) || is_dangling_sep(i))
     };
     let mut out = vec![];
     for (i, o) in r.iter().enumerate() {
         let adjacent = (i > 0 && linked(&r[i - 1], o)) || (i + 1 < r.len() && linked(o, &r[i + 1]));
-        if !small(o, t) || adjacent {
+        if !small(l, o, t) || adjacent {
             out.push(o.clone());
         }
     }
@@ -135,6 +144,10 @@ pub fn alphabet(l: L, n: usize) -> Vec<String> {
         }
     }
     out.truncate(n);
+    if l == L::Es && n > 12 {
+        // the Spanish '1/n' fraction form: never an ordinal, never a single digit, so rewritten at every threshold
+        out.push("doceavo".to_string());
+    }
     out
 }
 
